@@ -35,13 +35,57 @@ DOC_OPTS = [('graceful_timeout', ['0.2', '0.5', '1']), ('warmup_delay', ['0', '1
             ('max_retry', ['3', '5']), ('stop_signal', ['TERM', 'INT', '10']),
             ('send_hup', ['true', 'false']), ('stop_children', ['true', 'false']), ('working_dir', ['/tmp', '/']),
             ('copy_env', ['true', 'false']), ('max_age', ['0']), ('autostart', ['false', 'true']), ('myopt', ['1', '2', 'x']), ('other_opt', ['y', 'z']),
+            # hooks by dotted name, with and without the ignore-failure flag
+            ('hooks.before_start', ['vlib.props.c12hooks.ok', 'vlib.props.c12hooks.ok, True', 'vlib.props.c12hooks.ok, False']),
+            ('hooks.after_spawn', ['vlib.props.c12hooks.ok, True', 'vlib.props.c12hooks.ok']),
             ('stdout_stream.class', ['StdoutStream', 'FancyStdoutStream']), ('stderr_stream.class', ['StdoutStream'])]
 
 
 def plan(tier, seed):
     n = 700 if tier == 'quick' else 20000
-    return ([{'seed': seed, 'idx': i} for i in range(n)] +
+    return (HOOK_CORE + [{'seed': seed, 'idx': i} for i in range(n)] +
             [{'kind': 'live', 'seed': seed, 'idx': i} for i in range(3 if tier == 'quick' else 15)])
+
+
+def _hook_versions(values):
+    """a chain of files in which only the hook line of one watcher changes"""
+    out = []
+    for i, val in enumerate(values):
+        sec = {'cmd': 'w_db', 'numprocesses': '2', 'graceful_timeout': '0.2'}
+        if val is not None:
+            sec['hooks.before_start'] = val
+        out.append({'label': 'initial' if i == 0 else 'hook-line-only', 'model': {
+            'env': {}, 'envs': {}, 'comments': [],
+            'watchers': {'dB': sec, 'a': {'cmd': 'w_a', 'numprocesses': '1', 'graceful_timeout': '0.2'}}}})
+    return out
+
+
+_OK = 'vlib.props.c12hooks.ok'
+# a seed-independent core: the ignore-failure flag of a hook raised, lowered, removed with the hook, and back
+HOOK_CORE = [{'versions': _hook_versions(v)} for v in (
+    [_OK + ', True', _OK, _OK + ', True', _OK + ', False'],
+    [_OK, _OK + ', True', None, _OK],
+    [None, _OK + ', True', _OK + ', False', None])]
+
+
+def _removal_versions(opts):
+    """options disappear from the section one at a time (nothing else changes)"""
+    out = []
+    keys = list(opts)
+    for i in range(len(keys) + 1):
+        sec = {'cmd': 'w_db', 'numprocesses': '2', 'graceful_timeout': '0.2'}
+        sec.update({k_: opts[k_] for k_ in keys[i:]})
+        out.append({'label': 'initial' if i == 0 else 'opt-remove', 'model': {
+            'env': {}, 'envs': {}, 'comments': [],
+            'watchers': {'dB': sec, 'a': {'cmd': 'w_a', 'numprocesses': '1', 'graceful_timeout': '0.2'}}}})
+    return out
+
+
+# ... and options without a default entry (free-form ones, max_retry, priority) removed line by line
+HOOK_CORE += [{'versions': _removal_versions(o)} for o in (
+    {'myopt': '1', 'other_opt': 'y', 'max_retry': '3'},
+    {'priority': '5', 'myopt': 'x', 'stop_signal': 'INT'},
+    {'hooks.after_spawn': _OK + ', True', 'other_opt': 'z'})]
 
 
 CASE_TIMEOUT = 120
@@ -314,6 +358,11 @@ def view(w):
     v = {}
     for n, d_ in (snap.get('per') or {}).items():
         o = dict(d_.get('options') or {})
+        # hooked state: which hooks are installed and for which of them failures are ignored (no request shows it)
+        for wobj in w.arb.watchers:
+            if wobj.name.lower() == n.lower():
+                o['<hooks installed / failures ignored>'] = (tuple(sorted(wobj.hooks)),
+                                                             tuple(sorted(set(wobj.ignore_hook_failure))))
         v[n] = {'status': d_['status'], 'nlive': len(d_['pids'] or []), 'options': o}
     return v
 
